@@ -88,6 +88,11 @@ def r01a(ctx, run):
                   "cast_ty_to_cranelift must be given inst_results(call)[0]")
 
 
+def r01b(ctx, run):
+    import c12
+    c12.noeval_law(ctx, run, clauses=("wrapped", "rejected"))
+
+
 def _reuse(modname, fname):
     def f(ctx, run):
         mod = __import__(modname)
@@ -98,6 +103,7 @@ def _reuse(modname, fname):
 def rules(ctx):
     return [
         Rule("R01.a", "exit status: C main returns the entry point's converted result, 0 for a void entry point; it calls the declared entry point", 5, r01a),
+        Rule("R01.b", "acceptance: a branch that always jumps (return/break/continue) takes no part in the common type of an if/else or switch, for every kind of the other branch's type", 60, r01b),
         Rule("R10.c", "fault path: brif(cond, pass, fail); puts(message), exit(1), trap in order (shared with C10)", 10, _reuse("c10", "r10c")),
         Rule("R10.a", "bounds check dominates every element access (shared with C10)", 7, _reuse("c10", "r10a")),
         Rule("R10.b", "#unwrap check dominates the payload access (shared with C10)", 3, _reuse("c10", "r10b")),
